@@ -163,6 +163,7 @@ class ImapSession:
         """Feed `<tag> <line>` without waiting."""
         tag = tag or self.new_tag()
         full = tag.encode() + b" " + line if tag != "-" else line
+        self.world.rebump()
         self.marks.append((len(self.writer.buf), "send", tag, full))
         self.feed(full)
         return tag
@@ -419,6 +420,7 @@ class World:
         self.pack_limit = pack_limit
         self._orig_pack = None
         self.fsclock = int(EPOCH) + 2000
+        self.bumped = {}
         self.closed = False
         if pack_limit is not None:
             import asimap.mbox as mb
@@ -441,6 +443,7 @@ class World:
 
     async def settle(self, seconds: float = 0.0):
         """Let the loop run for `seconds` of virtual time (0 = a few turns)."""
+        self.rebump()
         if seconds > 0:
             await asyncio.sleep(seconds)
         else:
@@ -529,6 +532,20 @@ class World:
             cur = max(cur, int(os.stat(sq).st_mtime))
         self.fsclock = max(self.fsclock, cur, int(self.loop.wall())) + 2
         os.utime(p, (self.fsclock, self.fsclock))
+        self.bumped[folder] = self.fsclock
+
+    def rebump(self):
+        """Real file-system writes (a rename below the folder, say) stamp the real
+        clock, which is behind the harness's file-system clock, and would hide a
+        delivery whose mtime advance the server has not looked at yet.  Keep every
+        bumped folder at (at least) its bumped mtime."""
+        for folder, t in list(self.bumped.items()):
+            p = self.root / folder
+            try:
+                if int(os.stat(p).st_mtime) < t:
+                    os.utime(p, (t, t))
+            except OSError:
+                del self.bumped[folder]
 
     # -- MH agent ----------------------------------------------------------
     def deliver(self, folder: str, msgs: list[bytes], unseen: bool = True, bump: bool = True) -> list[int]:
